@@ -37,6 +37,7 @@ for n in names:
                 fired[c] = ["HARNESS exit %d: %s" % (p.returncode, (p.stderr or p.stdout)[-300:])]
     finally:
         subprocess.run(["git", "-C", REPO, "checkout", "--", "."], check=True)
+        subprocess.run(["git", "-C", REPO, "clean", "-fdq", "-e", "target"], check=True)   # files a patch added
         subprocess.run(["git", "-C", REPO, "clean", "-fdq", "-e", "target"], check=True)
     meta = json.load(open(os.path.join(d, "meta.json")))
     meta["detected_by"] = {c: v for c, v in fired.items()}
